@@ -47,11 +47,17 @@ CORE = [("d", "a", "v"), ("d", "a", "w"), ("d", "A", "v"), ("d", "a", "$b"), ("d
         ("[",), ("]",)]
 
 
+# few symbols, long sequences: a definition made two include levels down reaches the top; a
+# resource included a second time ('R': include the most recently finished resource again)
+DEEP = [("d", "a", "v"), ("d", "A", "w"), ("u", "$a"), ("[",), ("]",), ("R",)]
+
+
 def render(steps, maxdepth=2):
     """steps -> resources dict or None when the bracket structure is not canonical."""
     texts = {MAIN: []}
     stack = [MAIN]
     n = 0
+    last_closed = None
     for st in steps:
         if st[0] == "[":
             if len(stack) > maxdepth:
@@ -65,7 +71,11 @@ def render(steps, maxdepth=2):
         elif st[0] == "]":
             if len(stack) == 1:
                 return None
-            stack.pop()
+            last_closed = stack.pop()
+        elif st[0] == "R":
+            if last_closed is None or last_closed in stack:
+                return None
+            texts[stack[-1]].append("%%include %s" % last_closed.rsplit("/", 1)[1])
         elif st[0] == "d":
             texts[stack[-1]].append(("%%define %s %s" % (st[1], st[2])))
         else:
@@ -183,6 +193,8 @@ def nontrivial(steps):
     depth_of = {}
     depth = 0
     for st in steps:
+        if st[0] == "R":
+            return True
         if st[0] == "[":
             depth += 1
         elif st[0] == "]":
@@ -217,6 +229,8 @@ def shards(tier, seed):
         specs.append({"kind": "enum", "alpha": "FULL", "len": full_len, "first": i})
     for i, first in enumerate(CORE):
         specs.append({"kind": "enum", "alpha": "CORE", "len": core_len, "first": i})
+    for i, first in enumerate(DEEP):
+        specs.append({"kind": "enum", "alpha": "DEEP", "len": 8 if thorough else 7, "first": i})
     for i in range(16):
         specs.append({"kind": "random", "seed": seed * 1000 + i,
                       "examples": 3000 if thorough else 300})
@@ -242,7 +256,7 @@ def _run_case(res, steps, resources, by_hash):
 def run_shard(spec):
     res = Result()
     if spec["kind"] == "enum":
-        alpha = FULL if spec["alpha"] == "FULL" else CORE
+        alpha = {"FULL": FULL, "CORE": CORE, "DEEP": DEEP}[spec["alpha"]]
         first = alpha[spec["first"]]
         seen = set()
         for n in range(0, spec["len"]):
@@ -278,7 +292,7 @@ def run_shard(spec):
     refs = st.one_of(st.sampled_from(["$a", "${A}x", "$b", "$B", "$c", "$$a", "${c}", "$a$b", "x"]),
                      st.text(alphabet="abc$${}x ", min_size=1, max_size=8).filter(lambda s: s.strip() == s and s[:1] not in "#<%"))
     step = st.one_of(st.tuples(st.just("d"), names, values), st.tuples(st.just("u"), refs),
-                     st.just(("[",)), st.just(("]",)))
+                     st.just(("[",)), st.just(("]",)), st.just(("R",)))
 
     @hypothesis.seed(spec["seed"])
     @settings(max_examples=spec["examples"], deadline=None, database=None,
